@@ -552,12 +552,20 @@ def end_to_end(ctx, mon, type_name, empty, length, rule, dec, ths, cells, flags)
     from cutplace import errors, interface
 
     rows = [["D", "Format", "Delimited"], ["D", "Encoding", "utf-8"]]
+    separators = []
     if ths:
-        rows.append(["D", "Thousands separator", ths])
+        separators.append(["D", "Thousands separator", ths])
     if dec != ".":
-        rows.append(["D", "Decimal separator", dec])
+        separators.append(["D", "Decimal separator", dec])
+    # data format rows may stand anywhere after the Format row: also below the fields they apply to
+    late = bool(separators) and (len(cells) + len(length) + len(rule)) % 2 == 1
+    if not late:
+        rows.extend(separators)
     rows.append(["F", "f", "", "X" if empty else "", length, type_name, rule])
     rows.append(["F", "tail", "", "", "", "Text", ""])
+    if late:
+        rows.extend(separators)
+        ctx.count("e2e.cid-with-separators-below-the-fields")
     cid = interface.Cid()
     ctx.count("e2e.cid")
     try:
